@@ -210,7 +210,12 @@ def gen_key(rng, node, p_exist=0.5):
     ents = [p for p, _ in entries_of(node)]
     if ents and rng.random() < p_exist:
         return tuple(rng.choice(ents))
-    return tuple(rng.choice(KEYS) for _ in range(rng.choice([1, 1, 1, 2, 2, 3])))
+    return tuple(rnd_key(rng) for _ in range(rng.choice([1, 1, 1, 2, 2, 3])))
+
+
+def rnd_key(rng):
+    """mostly a / b / c; sometimes a name holding the separator (flatten_keys / unflatten_keys collisions)"""
+    return rng.choice(["a.b", "b.c"]) if rng.random() < 0.06 else rng.choice(KEYS)
 
 
 def gen_op(rng, state):
@@ -218,12 +223,22 @@ def gen_op(rng, state):
     if rng.random() < 0.07:
         return gen_update(rng, state)
     if rng.random() < 0.05:
-        # auto_batch_size_ on the root (through a nested handle it may cut a child's batch size below its parent's:
-        # the documented exclusion)
-        return ["auto", (), rng.choice([None, None, 0, 1, 2, 3])]
+        # auto_batch_size_ on the root or through a nested handle (there it may cut the child's batch size below its
+        # parent's — the documented exclusion, recognised after the call by check_C01.auto_out_of_scope)
+        hs = [tuple(h) for h, _ in nodes_of(state)]
+        h = () if rng.random() < 0.6 else rng.choice(hs)
+        return ["auto", h, rng.choice([None, None, None, 0, 1, 2, 3])]
     nodes = nodes_of(state)
     h, node = ((), state) if rng.random() < 0.55 else rng.choice(nodes)
     h = tuple(h)
+    if rng.random() < 0.07:
+        # restructuring in place (their effect on the mapping is C04's subject; here: the metadata)
+        q = rng.random()
+        if q < 0.4:
+            return ["excludein", h, [list(gen_key(rng, node, 0.7)) for _ in range(rng.randint(1, 3))]]
+        if q < 0.6 or not any("." in k for k, _ in node[4]):
+            return ["flattenin", h, "."]
+        return ["unflattenin", h, "."]
     r = rng.random()
     if r < 0.36:
         key = gen_key(rng, node, 0.35)
@@ -325,6 +340,31 @@ def gen_pv(rng, dest_bs, dev, depth=0):
 def gen_update(rng, state):
     nodes = nodes_of(state)
     h, node = ((), state) if rng.random() < 0.6 else rng.choice(nodes)
+    if rng.random() < 0.4:
+        # a tensordict payload: same batch size (mostly), a longer / shorter / mismatching one, any device, maybe named
+        q = rng.random()
+        if q < 0.6:
+            pbs = list(node[1])
+        elif q < 0.75:
+            pbs = gen_shape_ext(rng, node[1], 1, 1)[:4]
+        elif q < 0.9:
+            pbs = list(node[1][:rng.randint(0, len(node[1]))])
+        else:
+            pbs = mutate_shape(rng, node[1])[:4]
+        pdev = rng.choice([None, None, node[2], 0, 1])
+        payload = gen_tree(rng, pbs, pdev, rng.randint(0, 2), maxkids=3)
+        if rng.random() < 0.5:
+            # make it meet what is there: reuse some of the destination's keys (nested ones included)
+            mine = [k for k, _ in node[4]]
+            for kv in payload[4]:
+                if mine and rng.random() < 0.6:
+                    kv[0] = rng.choice(mine)
+            seen, uniq = set(), []
+            for kv in payload[4]:
+                if kv[0] not in seen:
+                    seen.add(kv[0]); uniq.append(kv)
+            payload[4] = uniq
+        return ["updatetd", tuple(h), payload]
     items, seen = [], set()
     for _ in range(rng.randint(1, 3)):
         key = gen_key(rng, node, 0.5)[:3]
@@ -361,6 +401,12 @@ def cls_of(e):
 
 
 def prepare_op(op):
+    if op[0] == "updatetd":
+        try:
+            v = build(op[2])
+        except Exception:  # noqa
+            return None
+        return [op[0], op[1], snap(v), None, v]
     if op[0] == "setdefault":
         try:
             v = build(op[3])
@@ -412,8 +458,16 @@ def apply_impl(td, op, tlimit=10.0):
                 node.setdefault(tuple(op[2]), op[4])
             elif kind == "refine":
                 node.refine_names(*op[2])
+            elif kind == "updatetd":
+                node.update(op[4])
             elif kind == "auto":
                 node.auto_batch_size_(op[2])
+            elif kind == "excludein":
+                node.exclude(*[tuple(k) for k in op[2]], inplace=True)
+            elif kind == "flattenin":
+                node.flatten_keys(op[2], inplace=True)
+            elif kind == "unflattenin":
+                node.unflatten_keys(op[2], inplace=True)
             elif kind == "update":
                 node.update({tuple(k): build_pv(v) for k, v in op[2]})
             else:
@@ -475,6 +529,12 @@ def sx_op(op):
         return f"(setdefault {sx_path(op[1])} {sx_path(op[2])} {sx_tree(op[3])})"
     if k == "refine":
         return f"(refine {sx_path(op[1])} {sx_names(op[2])})"
+    if k == "excludein":
+        return f"(excludein {sx_path(op[1])} ({' '.join(sx_path(x) for x in op[2])}))"
+    if k in ("flattenin", "unflattenin"):
+        return f"({k} {sx_path(op[1])} {hexs(op[2])})"
+    if k == "updatetd":
+        return f"(updatetd {sx_path(op[1])} {sx_tree(op[2])})"
     if k == "auto":
         return f"(auto {sx_path(op[1])} {'none' if op[2] is None else int(op[2])})"
     if k == "update":
